@@ -249,6 +249,10 @@ impl TwinEngine {
             0 => {
                 // (ii) same continuation + epilogue on both
                 let mut step_no = 0usize;
+                let quiet = order_sel % 4 == 3;
+                if quiet {
+                    st.events.insert("cont.quiet(nothing asked between the calls)");
+                }
                 let mut apply = |call: &Call, r1: &mut Runner, r2: &mut Runner, st: &mut TwinStats, executed: &mut Vec<Call>| -> Result<bool, Failure> {
                     if !r1.valid(call) {
                         return Ok(true);
@@ -269,6 +273,17 @@ impl TwinEngine {
                     }
                     if a.keys_after != b.keys_after {
                         return Err(self.fail("twin.keys_differ", step_no, format!("after {}: keys {:?} on the original, {:?} on the twin", call.render(), a.keys_after, b.keys_after)));
+                    }
+                    // quiet cases (one in four): nothing is asked between the calls of the continuation —
+                    // looking at everything after every call would itself refresh whatever a copy
+                    // remembers (or fails to remember) between queries; the complete comparison at the
+                    // end is made in any case
+                    if quiet {
+                        if a.desync {
+                            st.closed = Some("desync_with_model");
+                            return Ok(false);
+                        }
+                        return Ok(true);
                     }
                     let lvl = ObsLevel { inspect: true, debug: true, exports: false };
                     match (try_observe(&*r1.g, lvl), try_observe(&*r2.g, lvl)) {
